@@ -105,10 +105,18 @@ def split_top(s: str) -> list[str]:
 
 # ----------------------------------------------------------------------- function translator
 class FunTr:
-    def __init__(self, fn: ast.FunctionDef, sigs: dict, self_fields: dict | None = None):
+    def __init__(self, fn: ast.FunctionDef, sigs: dict, self_fields: dict | None = None, spec: dict | None = None):
         self.fn = fn
         self.sigs = sigs  # name -> (param types, return type)
         self.self_fields = self_fields or {}
+        # optional per-item extensions (white-list spec), all off by default:
+        #   "params": [[name, type], ...]  extra parameters standing for the method's environment
+        #   "subst":  {python expression text: parameter name}  e.g. {"datetime.now(timezone.utc)": "now"}
+        #   "z_truthiness": true  -> an int/timedelta used as a condition means `!= 0`
+        spec = spec or {}
+        self.extra_params = [(n, t) for n, t in spec.get("params", [])]
+        self.subst = dict(spec.get("subst", {}))
+        self.z_truth = bool(spec.get("z_truthiness", False))
 
     def translate(self) -> tuple[str, list[str], str]:
         fn = self.fn
@@ -122,6 +130,9 @@ class FunTr:
             env[a.arg] = {"type": t, "status": "opt" if t.startswith("option ") else "plain"}
         if fn.args.vararg or fn.args.kwarg or fn.args.kwonlyargs:
             fail(fn, "unsupported parameter kinds")
+        for n, t in self.extra_params:
+            params.append((n, t))
+            env[n] = {"type": t, "status": "opt" if t.startswith("option ") else "plain"}
         ret = parse_type(fn.returns)
         body = [s for s in fn.body if not (isinstance(s, ast.Expr) and isinstance(s.value, ast.Constant))]
         expr = self.block(body, env, ret)
@@ -145,7 +156,8 @@ class FunTr:
                 fail(s, "multi-target assignment")
             tgt = s.targets[0]
             if isinstance(tgt, ast.Name):
-                v, t = self.expr_t(s.value, env)
+                prev = env.get(tgt.id, {}).get("type", "")   # rebinding an option-typed variable: `x = None` is typed by it
+                v, t = self.expr_t(s.value, env, prev if prev.startswith("option ") else None)
                 env2 = dict(env)
                 env2[tgt.id] = {"type": t, "status": "opt" if t.startswith("option ") else "plain"}
                 return f"{pad}let {tgt.id} := {v} in\n" + self.block(rest, env2, ret, ind)
@@ -267,10 +279,14 @@ class FunTr:
                 return f"(Some {v})"
             if want.startswith("tuple(") and t.startswith("tuple("):
                 return v  # element-wise lifting was done in expr_t with `want`
+            if want == "bool" and t == "Z" and self.z_truth:
+                return f"(negb ({v} =? 0))"
             raise Unsupported(f"{self.fn.name}: line {getattr(e, 'lineno', '?')}: type {t} where {want} expected")
         return v
 
     def expr_t(self, e, env, want=None) -> tuple[str, str]:
+        if self.subst and not isinstance(e, (ast.Constant, ast.Name)) and ast.unparse(e) in self.subst:
+            return self.expr_t(ast.Name(id=self.subst[ast.unparse(e)]), env, want)
         if isinstance(e, ast.Constant):
             if e.value is True:
                 return "true", "bool"
@@ -359,6 +375,15 @@ class FunTr:
                 if a != "0":
                     fail(e, "isclose only supported against Power.zero()")
                 return f"({self.expr(f.value, env, want='Z')} =? 0)", "bool"
+            # timedelta(0): the zero duration
+            if isinstance(f, ast.Name) and f.id == "timedelta" and len(e.args) == 1 \
+                    and isinstance(e.args[0], ast.Constant) and e.args[0].value == 0 and not isinstance(e.args[0].value, bool):
+                return "0", "Z"
+            # divmod(a, b) on ints / timedeltas: floor quotient and remainder
+            if isinstance(f, ast.Name) and f.id == "divmod" and len(e.args) == 2:
+                a = self.expr(e.args[0], env, want="Z")
+                b = self.expr(e.args[1], env, want="Z")
+                return f"(({a} / {b}), ({a} mod {b}))", "tuple(Z,Z)"
             if isinstance(f, ast.Name) and f.id in ("max", "min") and len(e.args) == 2:
                 a = self.expr(e.args[0], env, want="Z")
                 b = self.expr(e.args[1], env, want="Z")
@@ -372,6 +397,73 @@ class FunTr:
                 return f"({name} " + " ".join(args) + ")", rt
             fail(e, f"call to {ast.unparse(f)}")
         fail(e, f"unsupported expression {type(e).__name__}")
+
+
+# ----------------------------------------------------------------------------- methods
+def methodize(fn: ast.FunctionDef, spec: dict) -> tuple[ast.FunctionDef, dict]:
+    """Pure-function view of a method of a small mutable class (kind "method").
+
+    spec["fields"] = [[attribute, python annotation], ...]: every `self.<attribute>` read becomes a
+    parameter of that name, every store rebinds it; spec["state"] lists the attributes the method
+    may assign -- each `return e` becomes `return (e, *state)` (for a `-> None` method just the state,
+    also at the end of the body); spec["consts"] = {attribute: int} are attributes that are fixed
+    constants.  Anything else touching `self` fails the item (fail-closed)."""
+    import copy
+    fields = [n for n, _ in spec.get("fields", [])]
+    ftypes = dict((n, t) for n, t in spec.get("fields", []))
+    state = list(spec.get("state", []))
+    consts = spec.get("consts", {})
+    for f in state:
+        if f not in fields:
+            raise Unsupported(f"state attribute {f} is not a declared field")
+
+    class T(ast.NodeTransformer):
+        def visit_Attribute(self, node):
+            if not (isinstance(node.value, ast.Name) and node.value.id == "self"):
+                self.generic_visit(node)
+                return node
+            if True:
+                if node.attr in fields:
+                    if not isinstance(node.ctx, ast.Load) and node.attr not in state:
+                        fail(node, f"store to self.{node.attr}, which is not declared as state")
+                    return ast.copy_location(ast.Name(id=node.attr, ctx=node.ctx), node)
+                if node.attr in consts and isinstance(node.ctx, ast.Load):
+                    return ast.copy_location(ast.Constant(consts[node.attr]), node)
+                fail(node, f"self.{node.attr} is not a declared field")
+            return node
+
+        def visit_Name(self, node):
+            if node.id == "self":
+                fail(node, "bare use of self")
+            if node.id in fields:
+                fail(node, f"local name {node.id} clashes with a field")
+            return node
+
+        def visit_Return(self, node):
+            self.generic_visit(node)
+            if not state:
+                return node
+            vals = ([node.value] if node.value is not None else []) + [ast.Name(id=f, ctx=ast.Load()) for f in state]
+            val = vals[0] if len(vals) == 1 else ast.Tuple(elts=vals, ctx=ast.Load())
+            return ast.copy_location(ast.Return(value=val), node)
+
+    fn2 = copy.deepcopy(fn)
+    returns_none = isinstance(fn2.returns, ast.Constant) and fn2.returns.value is None
+    fn2.args.args = [a for a in fn2.args.args if a.arg != "self"]
+    fn2.body = [T().visit(st) for st in fn2.body]
+    rets = ([] if returns_none else [ast.unparse(fn.returns)]) + [ftypes[f] for f in state]
+    if state:
+        if returns_none:
+            fn2.body.append(ast.copy_location(ast.Return(value=T().visit_Return(ast.Return(value=None)).value), fn2.body[-1]))
+        ann = rets[0] if len(rets) == 1 else "tuple[" + ", ".join(rets) + "]"
+        fn2.returns = ast.parse(ann, mode="eval").body
+    elif returns_none:
+        raise Unsupported("a method that returns nothing and has no state has no meaning")
+    ast.fix_missing_locations(fn2)
+    params = [[n, parse_type(ast.parse(t, mode="eval").body)] for n, t in spec.get("fields", [])]
+    spec2 = dict(spec)
+    spec2["params"] = params + list(spec.get("params", []))
+    return fn2, spec2
 
 
 # ----------------------------------------------------------------------------- constants
@@ -491,6 +583,8 @@ WL_DIR = Path(__file__).resolve().parent / "whitelist"
 # One white-list per generated file: tools/whitelist/<Name>.json -> coq/gen/<Name>.v
 # entries: [coq name, file relative to src/frequenz/sdk, kind, spec]
 #   kind "def"        : translate the function (spec: name?, cls?)
+#   kind "method"     : translate a method of a small mutable class as a pure function of its fields
+#                       (spec: cls, name, fields, state, consts?, params?, subst?) -- see methodize()
 #   kind "assign"     : constant assigned to spec.name (module level, or in spec.cls / spec.func)
 #   kind "default"    : default value of parameter spec.arg of spec.func (spec.cls?)
 #   kind "call_kwarg" : keyword spec.kw of the spec.index-th call of spec.callee in spec.cls.spec.func
@@ -507,9 +601,12 @@ def run_one(name: str, whitelist: list, out_path: Path) -> dict:
             if rel not in trees:
                 trees[rel] = ast.parse(path.read_text())
             tree = trees[rel]
-            if kind == "def":
+            if kind in ("def", "method"):
                 fn = find_def(tree, spec.get("name", coqname), spec.get("cls"))
-                text, pts, rt = FunTr(fn, sigs).translate()
+                spec_fn = spec
+                if kind == "method":
+                    fn, spec_fn = methodize(fn, spec)
+                text, pts, rt = FunTr(fn, sigs, spec=spec_fn).translate()
                 if spec.get("name", coqname) != coqname:
                     text = text.replace(f"Definition {fn.name} ", f"Definition {coqname} ", 1)
                 sigs[spec.get("name", coqname)] = (pts, rt)
